@@ -76,10 +76,32 @@ def clean_needs(t):
     return t[:260]
 
 
+def extensions_table():
+    out = ["", "### 10.6a Extension specifications (beyond the listed properties) and what they found", "",
+           "Registered in MANIFEST.json under `extensions`; statement, sources, spec and drill results of each in",
+           "`extensions/<id>.md`; evidence in `evidence/ext/<id>.json` (numbers below from the last committed run).", "",
+           "| Ext | Decides (short) | Spec | TLC states | Real-code rows/traces accepted | Findings on the unchanged tree |",
+           "|---|---|---|---|---|---|"]
+    man = json.load(open(os.path.join(V, "MANIFEST.json")))
+    fnd = json.load(open(os.path.join(V, "extensions", "findings.json")))["findings"]
+    for e in man.get("extensions", []):
+        ev = {}
+        f = os.path.join(V, "evidence", "ext", e["id"] + ".json")
+        if os.path.exists(f):
+            ev = json.load(open(f)).get("coverage", {})
+        mine = [x for x in fnd if x.get("ext") == e["id"] or x["id"].startswith(e["id"] + "-")]
+        fs = "; ".join("%s (%s)" % (x["id"], "open" if x.get("status", "open") == "open" else x["status"][:60]) for x in mine) or "-"
+        spec = e["technique"].split(" model-checked")[0].replace("TLA+ spec ", "")[:70]
+        out.append("| %s | %s | %s | %s | %s | %s |" % (
+            e["id"], e["statement"][:150].replace("|", "/") + "...", spec.replace("|", "/"),
+            ev.get("states", "-"), ev.get("traces_validated_against_impl", "-"), fs.replace("|", "/")))
+    return out
+
+
 def main():
     p = os.path.join(V, "DESIGN.md")
     s = open(p).read()
-    body = "\n".join([BEGIN, ""] + checks_table() + findings_table() + seeds_table() + ["", END])
+    body = "\n".join([BEGIN, ""] + checks_table() + findings_table() + seeds_table() + extensions_table() + ["", END])
     if BEGIN in s:
         s = re.sub(re.escape(BEGIN) + ".*?" + re.escape(END), lambda m: body, s, flags=re.S)
     else:
